@@ -1,27 +1,78 @@
 import DeltaModel.CommitMetaSrc
 /-!
-The statement list of `handle_commit_meta_header_line` regenerated from the Rust source, run by the interpreter of
-`DeltaModel/CommitMetaSrc.lean`, is the model's `Machine.handleCommitMeta` — for every configuration, state and line.
+The statement list of `handle_commit_meta_header_line` regenerated from the Rust source (`Generated.CommitMeta`), run by
+the interpreter of `DeltaModel/CommitMetaSrc.lean`, is the model's `Machine.handleCommitMeta` — for every
+configuration, state and line (`handleCommitMetaSrc_eq`). One lemma per statement kind (`e_*`), then the generated
+list is walked through.
 -/
+set_option linter.unusedSimpArgs false
 namespace CommitMetaSrc
 open Headers Machine Generated Generated.CommitMeta
+
+theorem e_decl (cfg : Cfg) (l : L) (n : Nat) (rest : List Stmt) (m : M) (h : Bool) :
+    exec cfg l n (.declineUnless testName :: rest) m h =
+      if !l.commitRe then some (.ok (false, m)) else exec cfg l n rest m h := by
+  rw [exec]; simp [testIsCommitRegex]
+theorem e_let (cfg : Cfg) (l : L) (n : Nat) (b : Bool) (rest : List Stmt) (m : M) (h : Bool) :
+    exec cfg l n (.letHandled b :: rest) m h = exec cfg l n rest m b := by rw [exec]
+theorem e_paint (cfg : Cfg) (l : L) (n : Nat) (rest : List Stmt) (m : M) (h : Bool) :
+    exec cfg l n (.paintBuffered :: rest) m h = exec cfg l n rest (flushMP m) h := by rw [exec]
+theorem e_pend (cfg : Cfg) (l : L) (n : Nat) (rest : List Stmt) (m : M) (h : Bool) :
+    exec cfg l n (.pendingDiffName :: rest) m h = exec cfg l n rest (pendingDiffName cfg m) h := by rw [exec]
+theorem e_state (cfg : Cfg) (l : L) (n : Nat) (rest : List Stmt) (m : M) (h : Bool) :
+    exec cfg l n (.setState "CommitMeta" :: rest) m h = exec cfg l n rest { m with st := .commitMeta } h := by
+  rw [exec]; rfl
+theorem e_ret (cfg : Cfg) (l : L) (n : Nat) (m : M) (h : Bool) :
+    exec cfg l n [.returnHandled] m h = some (.ok (h, m)) := by rw [exec]; rfl
+
+theorem e_inner (cfg : Cfg) (l : L) (n : Nat) (m : M) (h : Bool) :
+    execInner cfg l n [.emit, .call innerName, .setHandled true] m h =
+      some (if cfg.commitStyle.isOmitted ∧ ¬ cfg.colorOnly then Machine.emit m
+            else direct (Machine.emit m) (drawRows cfg.commitStyle .commit l.text l.raw [] n), true) := by
+  simp only [execInner, if_true, inner, execDraw]
+  by_cases ho : cfg.commitStyle.isOmitted = true ∧ ¬ cfg.colorOnly = true
+  · rw [if_pos ho, if_pos ho]
+  · rw [if_neg ho, if_neg ho]
+
+theorem e_if (cfg : Cfg) (l : L) (n : Nat) (blk : List Inner) (rest : List Stmt) (m : M) (h : Bool) :
+    exec cfg l n (.ifShouldHandle blk :: rest) m h =
+      if shouldHandle cfg m then
+        match execInner cfg l n blk m h with
+        | some (m', h') => exec cfg l n rest m' h'
+        | none => none
+      else exec cfg l n rest m h := by rw [exec]; rfl
+
+theorem body_eq : body = [.declineUnless testName, .letHandled false, .paintBuffered, .pendingDiffName,
+    .setState "CommitMeta", .ifShouldHandle [.emit, .call innerName, .setHandled true], .returnHandled] := by decide
 
 theorem handleCommitMetaSrc_eq (cfg : Cfg) (m : M) (l : L) :
     handleCommitMetaSrc cfg m l = some (handleCommitMeta cfg m l) := by
   unfold handleCommitMetaSrc handleCommitMeta
-  simp only [body, inner, exec, execInner, execDraw, testName, innerName, testIsCommitRegex, stateOf, and_self, if_true]
+  rw [body_eq, e_decl]
   cases hcr : l.commitRe
-  · simp
+  · rfl
   · simp only [Bool.not_true, Bool.false_eq_true, if_false]
+    rw [e_let, e_paint, e_pend, e_state, e_if, e_inner]
     cases hsh : shouldHandle cfg { pendingDiffName cfg (flushMP m) with st := .commitMeta }
-    · simp
-    · simp only [if_true]
-      by_cases ho : cfg.commitStyle.isOmitted = true ∧ ¬ cfg.colorOnly = true
-      · simp [ho]
-      · simp [ho]
+    · simp only [Bool.false_eq_true, if_false, e_ret]
+    · simp only [if_true, e_ret]
+      split <;> rfl
 
-/-- with the two calls dropped or reordered the interpreter computes something else: see the examples of
-`Props/C14.lean` -/
-theorem exec_nil (cfg : Cfg) (l : L) (n : Nat) (m : M) (h : Bool) : exec cfg l n [] m h = none := rfl
+/-- at a line the commit regex matches: first the buffered lines are painted and the file header still owed is
+written, then the state becomes `CommitMeta` — whether or not delta draws the commit line itself — and only then the
+commit style decides (`should_handle`) whether the line is claimed -/
+theorem commit_line_sets_state_after_pending_header (cfg : Cfg) (m : M) (l : L) (hre : l.commitRe = true) :
+    ∃ b z, handleCommitMetaSrc cfg m l = some (.ok (b, z)) ∧ z.st = .commitMeta ∧
+      b = shouldHandle cfg { pendingDiffName cfg (flushMP m) with st := .commitMeta } := by
+  rw [handleCommitMetaSrc_eq]
+  unfold handleCommitMeta
+  simp only [hre, Bool.not_true, Bool.false_eq_true, if_false]
+  cases hsh : shouldHandle cfg { pendingDiffName cfg (flushMP m) with st := .commitMeta }
+  · exact ⟨_, _, rfl, rfl, rfl⟩
+  · simp only [if_true]
+    split
+    · exact ⟨_, _, rfl, rfl, rfl⟩
+    · refine ⟨_, _, rfl, ?_, rfl⟩
+      unfold direct; split <;> rfl
 
 end CommitMetaSrc
